@@ -1,8 +1,9 @@
-package main
+package c12
 
 import (
 	"encoding/hex"
 	"errors"
+	"github.com/sassoftware/relic/v8/verifharness/core"
 	"io"
 	"os"
 	"path/filepath"
@@ -26,18 +27,18 @@ type c12Case struct {
 	Calls []c12Call `json:"calls"`
 	Mode  string    `json:"mode"` // same other hardlink absent
 	// observations
-	Patches  [][3]int64 `json:"patches"`  // headers after Add, before Dump
-	Dump     string     `json:"dump"`     // hex of Dump()
-	LoadErr  int        `json:"load_err"` // 0 ok
-	Loaded   [][3]int64 `json:"loaded"`
-	Status   int        `json:"status"` // Apply: 0 ok, else error class
-	ErrText  string     `json:"err_text,omitempty"`
-	Out      string     `json:"out"`       // dest bytes after Apply (hex) ("" if absent)
-	DestGone bool       `json:"dest_gone"` // dest does not exist after
-	Renamed  bool       `json:"renamed"`   // inode of dest differs from the input's
-	TmpLeft  bool       `json:"tmp_left"`
-	InputSame bool      `json:"input_same"` // source path bytes unchanged (other/absent modes)
-	Trunc    string     `json:"trunc,omitempty"` // result of ApplyBinPatch with a truncated blob: "err-untouched" etc
+	Patches   [][3]int64 `json:"patches"`  // headers after Add, before Dump
+	Dump      string     `json:"dump"`     // hex of Dump()
+	LoadErr   int        `json:"load_err"` // 0 ok
+	Loaded    [][3]int64 `json:"loaded"`
+	Status    int        `json:"status"` // Apply: 0 ok, else error class
+	ErrText   string     `json:"err_text,omitempty"`
+	Out       string     `json:"out"`       // dest bytes after Apply (hex) ("" if absent)
+	DestGone  bool       `json:"dest_gone"` // dest does not exist after
+	Renamed   bool       `json:"renamed"`   // inode of dest differs from the input's
+	TmpLeft   bool       `json:"tmp_left"`
+	InputSame bool       `json:"input_same"`      // source path bytes unchanged (other/absent modes)
+	Trunc     string     `json:"trunc,omitempty"` // result of ApplyBinPatch with a truncated blob: "err-untouched" etc
 }
 
 func c12ErrClass(err error) int {
@@ -64,7 +65,7 @@ func inode(path string) uint64 {
 	return st.Sys().(*syscall.Stat_t).Ino
 }
 
-func c12Run(c *ctx, cs *c12Case, dir string) {
+func c12Run(c *core.Ctx, cs *c12Case, dir string) {
 	file, _ := hex.DecodeString(cs.File)
 	os.RemoveAll(dir)
 	os.MkdirAll(dir, 0o755)
@@ -172,11 +173,11 @@ func c12Run(c *ctx, cs *c12Case, dir string) {
 }
 
 func init() {
-	commands["c12"] = func(c *ctx) error {
-		if c.scratch == "" {
+	core.Commands["c12"] = func(c *core.Ctx) error {
+		if c.Scratch == "" {
 			return errors.New("c12 needs -scratch")
 		}
-		r := &rng{s: c.seed}
+		r := &core.Rng{S: c.Seed}
 		id := 0
 		modes := []string{"same", "other", "hardlink", "absent"}
 		mkfile := func(n int) string {
@@ -190,8 +191,8 @@ func init() {
 		run := func(cs *c12Case) {
 			cs.ID = id
 			id++
-			c12Run(c, cs, filepath.Join(c.scratch, "w"))
-			c.emit(cs)
+			c12Run(c, cs, filepath.Join(c.Scratch, "w"))
+			c.Emit(cs)
 		}
 		// exhaustive: one call, every offset/old/blob for file lengths 0..5, every mode
 		for flen := 0; flen <= 5; flen += 1 {
@@ -207,7 +208,7 @@ func init() {
 		}
 		// exhaustive: two calls (any order, including overlapping and adjacent) on a 4-byte file, modes same/other
 		flen := 4
-		if c.tier == "thorough" {
+		if c.Tier == "thorough" {
 			flen = 5
 		}
 		for o1 := int64(0); o1 <= int64(flen); o1++ {
@@ -216,7 +217,7 @@ func init() {
 					for l2 := int64(0); o2+l2 <= int64(flen); l2++ {
 						for bi, b1 := range blobs {
 							for bj, b2 := range blobs {
-								if c.tier != "thorough" && (bi+bj)%2 == 1 && (o1+o2)%2 == 1 {
+								if c.Tier != "thorough" && (bi+bj)%2 == 1 && (o1+o2)%2 == 1 {
 									continue
 								}
 								m := modes[(int(o1)+int(o2)+bi+bj)%2]
@@ -229,60 +230,60 @@ func init() {
 		}
 		// random: builder-like sequences (disjoint ranges, mostly ascending, 50% adjacent), sizes to 64 KiB
 		n := 400
-		if c.tier == "thorough" {
+		if c.Tier == "thorough" {
 			n = 4000
 		}
-		if c.n > 0 {
-			n = c.n
+		if c.N > 0 {
+			n = c.N
 		}
 		for k := 0; k < n; k++ {
-			flen := r.pick(0, 1, 7, 64, 300, 4096, 5000)
-			if c.tier == "thorough" && r.chance(10) {
-				flen = 65536 + r.intn(100)
+			flen := r.Pick(0, 1, 7, 64, 300, 4096, 5000)
+			if c.Tier == "thorough" && r.Chance(10) {
+				flen = 65536 + r.Intn(100)
 			}
-			fb := r.bytes(flen)
-			np := 1 + r.intn(8)
+			fb := r.Bytes(flen)
+			np := 1 + r.Intn(8)
 			var calls []c12Call
 			pos := int64(0)
 			for j := 0; j < np && pos <= int64(flen); j++ {
 				gap := int64(0)
-				if !r.chance(50) {
-					gap = int64(r.intn(1 + (flen-int(pos))/2 + 1))
+				if !r.Chance(50) {
+					gap = int64(r.Intn(1 + (flen-int(pos))/2 + 1))
 				}
 				off := pos + gap
 				if off > int64(flen) {
 					break
 				}
-				old := int64(r.intn(int(int64(flen)-off) + 1))
-				if r.chance(30) {
+				old := int64(r.Intn(int(int64(flen)-off) + 1))
+				if r.Chance(30) {
 					old = 0
 				}
-				if j == np-1 && r.chance(40) {
+				if j == np-1 && r.Chance(40) {
 					old = int64(flen) - off // reach EOF (in-place candidates)
 				}
-				bl := r.pick(0, 1, 2, 17, int(old), int(old), 100)
+				bl := r.Pick(0, 1, 2, 17, int(old), int(old), 100)
 				if off == pos && gap == 0 && old == 0 && bl == 0 {
 					bl = 1
 				}
-				calls = append(calls, c12Call{off, old, hex.EncodeToString(r.bytes(bl))})
+				calls = append(calls, c12Call{off, old, hex.EncodeToString(r.Bytes(bl))})
 				pos = off + old
 				if old == 0 && gap == 0 {
 					// a following call at the same offset is adjacent (coalesced); fine
 				}
 			}
 			kind := "rand"
-			if r.chance(25) && len(calls) > 1 { // Mach-O style: non-file order
-				i, j := r.intn(len(calls)), r.intn(len(calls))
+			if r.Chance(25) && len(calls) > 1 { // Mach-O style: non-file order
+				i, j := r.Intn(len(calls)), r.Intn(len(calls))
 				calls[i], calls[j] = calls[j], calls[i]
 				kind = "rand-shuffled"
 			}
-			run(&c12Case{Kind: kind, File: hex.EncodeToString(fb), Calls: calls, Mode: modes[r.intn(4)]})
+			run(&c12Case{Kind: kind, File: hex.EncodeToString(fb), Calls: calls, Mode: modes[r.Intn(4)]})
 		}
 		return nil
 	}
 	// header-only arithmetic for > 4 GiB old sizes: no files involved
-	commands["c12big"] = func(c *ctx) error {
-		r := &rng{s: c.seed ^ 0xb16}
+	core.Commands["c12big"] = func(c *core.Ctx) error {
+		r := &core.Rng{S: c.Seed ^ 0xb16}
 		M := int64(0xffffffff)
 		sizes := []int64{M - 1, M, M + 1, 2*M - 1, 2 * M, 2*M + 1, 3*M + 5, 1 << 40}
 		id := 0
@@ -290,7 +291,7 @@ func init() {
 			for _, s2 := range []int64{0, 1, M - 1, M, M + 1} {
 				for _, adj := range []bool{true, false} {
 					ps := binpatch.New()
-					off1 := int64(r.intn(1000))
+					off1 := int64(r.Intn(1000))
 					ps.Add(off1, s1, []byte{1})
 					off2 := off1 + s1
 					if !adj {
@@ -302,7 +303,7 @@ func init() {
 					for _, h := range ps.Patches {
 						cs.Patches = append(cs.Patches, [3]int64{h.Offset, int64(h.OldSize), int64(h.NewSize)})
 					}
-					c.emit(cs)
+					c.Emit(cs)
 				}
 			}
 		}
